@@ -78,7 +78,8 @@ class Executor:
         self.assumed_contracts_used: set[str] = set()
         self.modular = True
         self.verifying: str | None = None
-        self.born_clock = 1
+        self.born_clock: Any = 1
+        self.clock_facts: list[Any] = []  # exit_clock >= entry_clock of every contract call (ground facts over fresh constants)
         self.spec: Any = None  # spec vocabulary object, set by the driver
         self.hooks: dict[str, Callable] = {}
 
@@ -95,6 +96,8 @@ class Executor:
             for f in st.pc:
                 if not _has_quantifier(f):
                     s.add(f)
+            for f in self.clock_facts:
+                s.add(f)
             for e in extra:
                 s.add(e)
             return s.check() != z3.unsat
